@@ -95,7 +95,8 @@ Proof.
   destruct (k =? 1); [eapply sched_abs_started_gt; eauto|].
   destruct (k =? 2); [eapply sched_abs_started_gt; eauto|].
   destruct (k =? 3); [eapply sched_abs_started_gt; eauto|].
-  destruct (k =? 4); [eapply sched_abs_started_gt; eauto|discriminate].
+  destruct (k =? 4); [eapply sched_abs_started_gt; eauto|].
+  destruct (k =? 8); [eapply sched_abs_started_gt; eauto|discriminate].
 Qed.
 
 Lemma sched_eff_start_ge : forall now k a w1 w2 e, sched_eff false now k a w1 w2 = Some e -> now <= e.
@@ -104,7 +105,8 @@ Proof.
   destruct (k =? 1); [eapply sched_abs_start_ge; eauto|].
   destruct (k =? 2); [eapply sched_abs_start_ge; eauto|].
   destruct (k =? 3); [eapply sched_abs_start_ge; eauto|].
-  destruct (k =? 4); [eapply sched_abs_start_ge; eauto|discriminate].
+  destruct (k =? 4); [eapply sched_abs_start_ge; eauto|].
+  destruct (k =? 8); [eapply sched_abs_start_ge; eauto|discriminate].
 Qed.
 
 (* a wall-clock alarm is never ignored; one that is already due is entered for
@@ -1121,4 +1123,94 @@ Proof.
     unfold stopped_before_loop. tauto. }
   destruct (stopped_before_loop_exec _ _ _ _ H HS) as ((A & B & C) & D).
   destruct (stop_exec _ _ _ _ H Hst) as (_ & N1 & _ & N3). repeat split; auto.
+Qed.
+
+(* ================================================================== *)
+(* the acceptor with reports of the cached next_scheduled_time: an accepted history is a run of the model,
+   and every reported value is the minimum of the pending set (-1 when empty) at that point *)
+Lemma accept_ix_run : forall c os s i s', fst (accept_ix c s os i) = -1 -> 0 <= i -> snd (accept_ix c s os i) = s' ->
+  exec c s (labels_of os) = Some s'.
+Proof.
+  induction os as [|o r IH]; simpl; intros s i s' H Hi Hs; [congruence|].
+  destruct o as [l|nx]; simpl.
+  - destruct (gstep c s l) as [s1|] eqn:E; [apply (IH s1 (i + 1)); auto; lia | simpl in H; lia].
+  - destruct (nx =? next_obs s); [apply (IH s (i + 1)); auto; lia | simpl in H; lia].
+Qed.
+
+(* ================================================================== *)
+(* The root scan: the cached next_scheduled_time it leaves is at or below every future slot, of the
+   push-source prefix as of the ordinary nodes, whether or not the node was evaluated in the cycle. *)
+Local Arguments schedule_node_rule : simpl never.
+Local Arguments fold_slot : simpl never.
+
+Definition below_future (t next : Z) (slots : list Z) : Prop :=
+  forall s, In s slots -> t < s -> s < MAX_DT -> next <= s.
+
+Lemma schedule_node_rule_ok : forall t w slot next slot' next',
+  schedule_node_rule t w (slot, next) = (slot', next') ->
+  next' <= next /\ ((t < slot -> slot < MAX_DT -> next <= slot) -> (t < slot' -> slot' < MAX_DT -> next' <= slot')).
+Proof.
+  intros t w slot next slot' next' H. unfold schedule_node_rule in H.
+  destruct ((slot <=? t) || (w <? slot)) eqn:E.
+  - destruct ((t <? w) && (w <? next)) eqn:E2; inversion H; subst; split; intros; lia.
+  - inversion H; subst. split; auto; lia.
+Qed.
+
+Lemma schedule_reqs_ok : forall t ws slot next slot' next',
+  fold_left (fun sn w => schedule_node_rule t w sn) ws (slot, next) = (slot', next') ->
+  next' <= next /\ ((t < slot -> slot < MAX_DT -> next <= slot) -> (t < slot' -> slot' < MAX_DT -> next' <= slot')).
+Proof.
+  induction ws as [|w r IH]; simpl; intros slot next slot' next' H.
+  - inversion H; subst. split; auto; lia.
+  - destruct (schedule_node_rule t w (slot, next)) as [s1 n1] eqn:E.
+    try rewrite E in H.
+    destruct (schedule_node_rule_ok _ _ _ _ _ _ E) as (A1 & A2). destruct (IH _ _ _ _ H) as (B1 & B2).
+    split; [lia|]. intros J. apply B2. apply A2. exact J.
+Qed.
+
+Lemma fold_slot_ok : forall t slot next, fold_slot t slot next <= next /\ (t < slot -> slot < MAX_DT -> fold_slot t slot next <= slot).
+Proof. intros; unfold fold_slot. destruct ((t <? slot) && (slot <? next)) eqn:E; split; intros; lia. Qed.
+
+Lemma scan_push_ok : forall t pushp beh slots i next slots' next',
+  scan_push t pushp beh i slots next = (slots', next') ->
+  next' <= next /\ below_future t next' slots'.
+Proof.
+  induction slots as [|sl r IH]; simpl; intros i next slots' next' H.
+  - inversion H; subst. split; [lia|]. intros s [].
+  - destruct (if pushp || (sl =? t)
+              then fold_left (fun sn w => schedule_node_rule t w sn) (beh i) (if sl =? t then MIN_DT else sl, next)
+              else (sl, next)) as [sl1 next1] eqn:E1.
+    destruct (scan_push t pushp beh (S i) r (fold_slot t sl1 next1)) as [r' n'] eqn:E2.
+    inversion H; subst. destruct (IH _ _ _ _ E2) as (B1 & B2).
+    destruct (fold_slot_ok t sl1 next1) as (F1 & F2).
+    assert (N1 : next1 <= next).
+    { destruct (pushp || (sl =? t)); [apply schedule_reqs_ok in E1; tauto | inversion E1; lia]. }
+    split; [lia|]. intros s [<-|Hin] Hs Hm; [|apply B2; auto]. specialize (F2 Hs Hm). lia.
+Qed.
+
+Lemma scan_norm_ok : forall t beh slots i next slots' next',
+  scan_norm t beh i slots next = (slots', next') ->
+  next' <= next /\ below_future t next' slots'.
+Proof.
+  induction slots as [|sl r IH]; simpl; intros i next slots' next' H.
+  - inversion H; subst. split; [lia|]. intros s [].
+  - destruct (if sl =? t then fold_left (fun sn w => schedule_node_rule t w sn) (beh i) (sl, next)
+              else (sl, fold_slot t sl next)) as [sl1 next1] eqn:E1.
+    destruct (scan_norm t beh (S i) r next1) as [r' n'] eqn:E2.
+    inversion H; subst. destruct (IH _ _ _ _ E2) as (B1 & B2).
+    assert (N1 : next1 <= next /\ (t < sl1 -> sl1 < MAX_DT -> next1 <= sl1)).
+    { destruct (sl =? t) eqn:Ed.
+      - destruct (schedule_reqs_ok _ _ _ _ _ _ E1) as (A1 & A2). split; auto. apply A2. lia.
+      - inversion E1; subst. apply fold_slot_ok. }
+    destruct N1 as (N1 & N2). split; [lia|]. intros s [<-|Hin] Hs Hm; [|apply B2; auto]. specialize (N2 Hs Hm). lia.
+Qed.
+
+Lemma root_scan_next_le_future_slots_l : forall t pushp beh prefix rest slots' next',
+  root_scan t pushp beh prefix rest = (slots', next') -> below_future t next' slots'.
+Proof.
+  intros t pushp beh prefix rest slots' next' H. unfold root_scan in H.
+  destruct (scan_push t pushp beh 0 prefix MAX_DT) as [p' n1] eqn:E1.
+  destruct (scan_norm t beh (length prefix) rest n1) as [r' n2] eqn:E2. inversion H; subst.
+  destruct (scan_push_ok _ _ _ _ _ _ _ _ E1) as (_ & P). destruct (scan_norm_ok _ _ _ _ _ _ _ E2) as (N & R).
+  intros s Hin Hs Hm. apply in_app_or in Hin. destruct Hin as [Hin|Hin]; [specialize (P s Hin Hs Hm); lia | apply R; auto].
 Qed.
